@@ -28,6 +28,14 @@ CHECKS["C13"] = dict(
     assumptions=["sizes larger than the real buffer are caller contract violations and are not exercised",
                  "random-byte content is one fixed position-distinct pattern; C12 varies the bytes"],
     nonvacuous=lambda s, t: None if s.get("successes", 0) > 1000 and s.get("failures", 0) > 1000 else "no successes or no failures seen",
+    manifest=dict(
+        text="Bounded exhaustive exploration: the property's finite grid (every output_size -2..256 x every prefix argument x 29 "
+             "count classes x nrbytes 0..70, 10.7 M calls) is enumerated completely against the real crypt_gensalt_rn inside a "
+             "canaried arena with abort/assert/signal captured as data; relational oracles (prefix-of-full, monotonicity, 192 suffices) "
+             "are evaluated per column. Exactly the quantifier of the property except 'random large values'.",
+        note="gcc -O2 build of the working tree (thorough: also ASan+UBSan); sizes beyond the real buffer are not exercised; one fixed entropy pattern.",
+        technique="exhaustive enumeration of the complete finite argument grid against the implementation (bounded model checking of inputs)",
+        ref="DESIGN.md 3/C13"),
 )
 
 CHECKS["C12"] = dict(
@@ -40,4 +48,52 @@ CHECKS["C12"] = dict(
     assumptions=["quality of the OS generator is not examined; the seam shows the library asks arc4random_buf for the hashes.conf amount",
                  "sha1crypt bytes 0..3 and the count perturbation are not part of the injective salt window"],
     nonvacuous=lambda s, t: None if s.get("bitflips", 0) > 5000 and s.get("refused", 0) > 50 else "too few bit flips or refusals",
+    manifest=dict(
+        text="Bounded exhaustive exploration: every salted prefix x every nrbytes 0..70,128,255,256 x two base fills, and from each "
+             "base point every single-bit deviation inside the consumed window (about 245 k generator executions); the salt is decoded by "
+             "an independent decoder and must equal the consumed bytes (constructive injectivity); size floors and EINVAL-for-too-short "
+             "are checked on every cell; the rbytes==NULL path is run under an entropy seam that owns the OS source.",
+        note="independent per-format decoders written from crypt.5 / format definitions; the OS generator itself is trusted; byte contents other than the two base fills are reached only through single-bit deviations.",
+        technique="exhaustive enumeration of (prefix, nrbytes) cells with all single-bit deviations of the entropy input, against the implementation",
+        ref="DESIGN.md 3/C12"),
+)
+
+CHECKS["C11"] = dict(
+    level="exploration",
+    jobs=lambda tier: [dict(name="c11", variant="o2", sources=["e_c11.c"] + RT)],
+    coverage=_cov("16 prefixes x every count in {0..40, 2^k-1/2^k/2^k+1 for k=1..63, 10^k-1/10^k/10^k+1 for k=1..19, the documented "
+                  "clamp/default boundaries, ULONG_MAX} x 4 entropy fills; the cost field of each generated setting is decoded by an "
+                  "independent decoder and compared with the documented function of count; distinct_nontrivial = distinct generated "
+                  "settings among accepted counts"),
+    assumptions=["defaults and clamps are taken from crypt.5, crypt_gensalt.3 and the property text",
+                 "that crypt applies the encoded cost is C02's subject (hash equals the published algorithm for that setting)"],
+    nonvacuous=lambda s, t: None if s.get("accepted", 0) > 2000 and s.get("expected_rejections", 0) > 2000 else "too few accepted or rejected counts",
+    manifest=dict(
+        text="Bounded exhaustive exploration of the count axis: every value of the small ranges, every power of two and of ten +-1 up to "
+             "ULONG_MAX and every documented boundary, for all 16 prefixes and 4 entropy fills (about 19 k generator executions), each "
+             "decoded independently and compared with the documented default/clamp/reject function.",
+        note="documented function written from crypt.5/crypt_gensalt.3/property text; 64-bit values between the enumerated boundaries are covered by the piecewise-constant/linear structure of the clamp, not individually.",
+        technique="exhaustive enumeration of boundary-complete count values x prefixes against the implementation with an independent cost decoder",
+        ref="DESIGN.md 3/C11"),
+)
+
+CHECKS["C10"] = dict(
+    level="exploration",
+    jobs=lambda tier: [dict(name="c10", variant="o2", sources=["e_c10.c"] + RT)],
+    coverage=_cov("49 prefix arguments (16 tags, NULL, a full hash and a bare setting of each method) x accepted count classes (all values "
+                  "of the small ranges) x nrbytes {0..70,128,255,256} x 3 byte fills: crypt_gensalt, crypt_gensalt_rn(192), (256), "
+                  "crypt_gensalt_ra and a repeat are compared; shape/tag/checksalt on every success; on the hashing sub-grid (cost within "
+                  "budget) crypt_rn with 3 phrase lengths must succeed keeping the setting as literal prefix and crypt(P, crypt_gensalt()) "
+                  "uncopied must agree; distinct_nontrivial = distinct generated settings"),
+    assumptions=["hashing is done only where the decoded cost is within the compute budget (bcrypt<=6/8, rounds<=20000, <=32/256 MiB)",
+                 "method selected by a prefix argument is modelled from crypt.5 (leading tag; NULL = $y$)"],
+    nonvacuous=lambda s, t: None if s.get("hashes", 0) > 1000 and s.get("generated", 0) > 10000 else "too few hashes or generated settings",
+    deadline=dict(quick=240, thorough=1500),
+    manifest=dict(
+        text="Bounded exhaustive exploration: the full product of prefix arguments x accepted counts x nrbytes x byte fills is run through all "
+             "three generator entry points (plus a determinism repeat), and every generated setting inside the compute budget is fed to the real "
+             "crypt_rn/crypt for three phrase lengths; the oracle is structural (tag, alphabet, checksalt, literal-prefix, entry-point equality).",
+        note="gcc -O2 build of the working tree; costs above the budget are generated and shape-checked but not hashed; mmap seam caps a single region at 40 MiB (quick) / 300 MiB (thorough).",
+        technique="exhaustive enumeration of the generator argument grid with generated settings replayed into crypt on the implementation",
+        ref="DESIGN.md 3/C10"),
 )
